@@ -56,6 +56,8 @@ def gen_coqproject():
 
 
 def regenerate_all():
+    from . import props
+    props.load_all()   # check modules register their source-to-Coq translators in GENERATORS
     for g in GENERATORS:
         g()
     gen_extract()
